@@ -30,10 +30,12 @@ type stats struct {
 	notes    []string
 	samples  []any
 	noted    map[string]bool
+	shrunk   map[string]int    // shape/form/symptom -> shrink runs
+	lastFP   map[string]string // shape/form/symptom -> last fingerprint
 }
 
 func newStats() *stats {
-	return &stats{n: map[string]int64{}, distinct: map[string]map[string]struct{}{}, noted: map[string]bool{}}
+	return &stats{n: map[string]int64{}, distinct: map[string]map[string]struct{}{}, noted: map[string]bool{}, shrunk: map[string]int{}, lastFP: map[string]string{}}
 }
 func (s *stats) count(k string, n int) { s.n[k] += int64(n) }
 func (s *stats) dist(class, key string) {
@@ -61,7 +63,7 @@ type finding struct {
 var ctx = context.Background()
 
 // classifyBudget bounds the number of shrink runs per process.
-var classifyBudget = func() *atomic.Int64 { b := new(atomic.Int64); b.Store(600); return b }()
+var classifyBudget = func() *atomic.Int64 { b := new(atomic.Int64); b.Store(6000); return b }()
 
 func opts(validation bool) []serix.Option {
 	if validation {
@@ -467,14 +469,21 @@ func runCase(st *stats, u *sergen.Universe, shapeIdx int, s *sergen.Shape, v *se
 		var n node
 		var nf finding
 		ok := false
-		// shrinking re-runs the oracle on sub-nodes; it is bounded per process so that a tree on
-		// which (nearly) every case fails still finishes – the surplus is reported unclassified
-		if classifyBudget.Add(-1) >= 0 {
+		// shrinking re-runs the oracle on sub-nodes; it is bounded per shape (and per process) so that
+		// a tree on which nearly every case fails still finishes. A surplus failure of a shape takes
+		// the class its last shrunk failure with the same form and symptom got (same shape, same
+		// symptom); only if there is none it is reported as unclassified.
+		key := fmt.Sprintf("%p/%s/%s", s, f.form, f.symptom)
+		if st.shrunk[key] < 30 && classifyBudget.Add(-1) >= 0 {
+			st.shrunk[key]++
 			n, nf, ok = minimize(u, top, f.form, validation, bseed)
 		} else {
 			st.count("refuting_observations_not_shrunk", 1)
-			fp := fmt.Sprintf("%s:%s@unclassified", f.form, f.symptom)
-			st.viols = append(st.viols, viol{fp, f.detail + " (not shrunk: classification budget of this process used up)", replayRec{Part: "serix", Static: u.Static, USeed: u.Seed,
+			fp := st.lastFP[key]
+			if fp == "" {
+				fp = fmt.Sprintf("%s:%s@unclassified", f.form, f.symptom)
+			}
+			st.viols = append(st.viols, viol{fp, f.detail + " (not shrunk: classified like the previous failures of this shape)", replayRec{Part: "serix", Static: u.Static, USeed: u.Seed,
 				ShapeIdx: shapeIdx, ValIdx: valIdx, Validation: validation, Shape: short(s.String(), 600), Detail: f.detail}})
 			continue
 		}
@@ -482,6 +491,7 @@ func runCase(st *stats, u *sergen.Universe, shapeIdx int, s *sergen.Shape, v *se
 			n, nf = top, f
 		}
 		fp := fmt.Sprintf("%s:%s@%s", nf.form, nf.symptom, signature(n))
+		st.lastFP[key] = fp
 		rec := replayRec{Part: "serix", Static: u.Static, USeed: u.Seed, ShapeIdx: shapeIdx, ValIdx: valIdx, Validation: validation,
 			Shape: short(s.String(), 600), GoType: short(sergen.Describe(s), 600), Node: short(n.s.String(), 300),
 			Bytes: short(hex.EncodeToString(o.bytes), 400), Detail: f.detail}
